@@ -1,8 +1,8 @@
 package rules
 
 import (
-	"os"
 	"fmt"
+	"os"
 	"strings"
 
 	"golang.org/x/tools/go/ssa"
